@@ -371,7 +371,10 @@ func (l *BlockchainRpcTxWatcher) observationLoop(
 
 			// Now check if we got enough confirmations. We use first seen - 1
 			// as this is the block the tx was confirmed in the first time.
-			if current-(firstSeen-1) >= l.requiredConfs {
+			// The height we were handed can be older than the block the fresh
+			// lookup found the tx in: compute the depth signed, so that a stale
+			// height gives "not deep enough" instead of wrapping around.
+			if int64(current)-(int64(firstSeen)-1) >= int64(l.requiredConfs) {
 				// We finally made it, enough confirmations and below the safety
 				// limit!
 				l.callbackAndLog(swapId, rawTx, nil)
